@@ -66,7 +66,11 @@ class C13(F.Spec):
             nz = lambda n: bytes([1 + rng.getrandbits(7) for _ in range(n)])
             put("guid", nz(16)); put("auth", nz(16))
             put("server", b"srv%d.example.org\0" % rng.randint(0, 99))
-            put("email", b"user%d@example.org\0" % rng.randint(0, 99))
+            # short and long addresses: the two old layouts differ by 16 bytes in front of the e-mail, so a long 5B address
+            # also reads as an address ("@" and "." present) 16 characters in
+            put("email", rng.choice([b"user%d@example.org\0" % rng.randint(0, 99), b"a@b.pl\0",
+                                     b"firstname.lastname%d@example.com\0" % rng.randint(0, 99),
+                                     b"a.very.long.mailbox.name%d@mail.example.org\0" % rng.randint(0, 9)]))
             put("ssid", b"net%d\0" % rng.randint(0, 99)); put("pwd", b"pw%d\0" % rng.randint(0, 9999))
             put("t1", rb(rng, 8)); put("t2", rb(rng, 8))
             ops.append("flashfill 00")
@@ -284,7 +288,7 @@ class C13(F.Spec):
             ops = ["conn", "seg " + first.hex(), "conn", "show"]
             if fault:
                 ops.append("fault %d %d" % fault)
-            ops += ["seg " + second.hex(), "show"]
+            ops += ["seg " + second.hex(), "show", "reload", "show"]
             ev += 1
             f, nontrivial = self.form_oracle(exe, ops, new)
             nt += 1 if nontrivial else 0
@@ -306,7 +310,14 @@ class C13(F.Spec):
             else:
                 cur.append(ln)
         recs = [x.split()[1] for g in groups for x in g if x.startswith("CFGREC ")]
-        seg2 = groups[-2] if len(groups) >= 2 else []
+        reloaded = None
+        if "reload" in ops:
+            k = ops.index("reload")
+            seg2 = groups[k - 2] if k >= 2 else []
+            if len(recs) == 3:
+                reloaded = recs.pop()
+        else:
+            seg2 = groups[-2] if len(groups) >= 2 else []
         flash = [x.split() for x in seg2 if x.startswith("FLASH ")]
         failed = any(f[-1] != "0" for f in flash)
         if len(recs) != 2 or not flash:
@@ -316,6 +327,9 @@ class C13(F.Spec):
                              "was replaced by the submitted one" % " ".join(" ".join(f) for f in flash if f[-1] != "0")), True
         if not failed and new is not None and new.hex() not in recs[1]:
             return F.Finding("saved-form-not-in-ram", "the form was saved but the configuration in RAM does not hold the submitted SSID"), True
+        if not failed and reloaded is not None and reloaded != recs[1]:
+            return F.Finding("saved-form-not-loaded", "the form was saved (flash result OK) but a restart loads another configuration than the "
+                             "one the device holds after the save"), True
         return None, True
 
     def extra_replay(self, ops):
